@@ -616,7 +616,34 @@ fn short_kind(e: &attohttpc::Error) -> String {
 }
 
 /// Worker: `vh C05 --worker <tier> <shard> <nshards> <from> <to> <announce_every>`
+/// A logger that formats every record and throws it away: the library's log statements (and the
+/// expressions in their arguments) run as they do in a program that has logging switched on.
+struct EvalLogger;
+impl log::Log for EvalLogger {
+    fn enabled(&self, _: &log::Metadata) -> bool {
+        true
+    }
+    fn log(&self, record: &log::Record) {
+        struct Sink;
+        impl std::fmt::Write for Sink {
+            fn write_str(&mut self, _: &str) -> std::fmt::Result {
+                Ok(())
+            }
+        }
+        let _ = std::fmt::write(&mut Sink, *record.args());
+    }
+    fn flush(&self) {}
+}
+static EVAL_LOGGER: EvalLogger = EvalLogger;
+
+pub fn install_eval_logger() {
+    if log::set_logger(&EVAL_LOGGER).is_ok() {
+        log::set_max_level(log::LevelFilter::Trace);
+    }
+}
+
 pub fn worker(args: &[String]) -> i32 {
+    install_eval_logger();
     let tier = if args[0] == "thorough" { Tier::Thorough } else { Tier::Quick };
     let shard: u64 = args[1].parse().unwrap();
     let nshards: u64 = args[2].parse().unwrap();
@@ -798,6 +825,7 @@ fn big_limit_cells(ctx: &Ctx) -> u64 {
 }
 
 pub fn c05(ctx: &Ctx) -> Report {
+    install_eval_logger();
     let n_big = big_limit_cells(ctx);
     ctx.count("raised_max_headers_cells", n_big);
     let space = Space::new(ctx.tier);
